@@ -23,7 +23,7 @@ RULE = ("Hypothesis draws a volume (40..64 per side) with 2-6 planted particles 
         "and for the chunked input. Non-trivial = more than one chunk along an axis with a particle within the overlap "
         "depth of a chunk border, or an image axis shorter than the overlap depth.")
 TOLERANCES = {"position": "1 px * scale (0.3 px for particles centred on a voxel of the response)", "numpy vs chunked positions": "0.5 px * scale", "scores numpy vs chunked": "5e-2 relative"}
-ASSUMPTIONS = ["strong pick = score >= 0.5 (LoG/DoG) or 0.75 (template matcher) * median score of the picks nearest to the planted sites (weak side-lobe maxima are ignored)"]
+ASSUMPTIONS = ["strong pick = score >= 0.5 (LoG/DoG) or 0.85 (template matcher) * median score of the picks nearest to the planted sites (weak side-lobe maxima are ignored)"]
 
 
 def build_image(d):
@@ -90,7 +90,8 @@ def strong_picks(d, mole):
     if not near:
         return pos[:0], sc[:0], mole.quaternion()[:0], None
     # partial overlaps of a blob template with a neighbouring particle reach about half the full score
-    thr = (0.75 if d["picker"] == "ZNCC" else 0.5) * float(np.median(near))
+    # (with quarter-turn candidates one matched dominant blob alone reaches 0.75 of the full score: 0.85)
+    thr = ((0.9 if d.get("quarter_turns") else 0.85) if d["picker"] == "ZNCC" else 0.5) * float(np.median(near))
     keep = sc >= thr
     return pos[keep], sc[keep], mole.quaternion()[keep], thr
 
@@ -175,6 +176,7 @@ def cases(draw, pickers=("LoG", "DoG", "ZNCC")):
     # ceil(r) along every axis (only a ball-shaped exclusion zone keeps both)
     pairmode = picker in ("LoG", "ZNCC") and draw(st.integers(0, 4)) >= 3
     psigma = None
+    quarter_turns = False
     if picker == "ZNCC" and pairmode:
         # compact particle in a 9-voxel template, min_distance 6 px, neighbours (5..6, 5..6, 5..6) px apart (>= 8.7 px)
         tshape, ts = [9, 9, 9], 9
@@ -192,6 +194,12 @@ def cases(draw, pickers=("LoG", "DoG", "ZNCC")):
         blobs = draw(planted.blob_offsets((min(tshape) - 1) / 2 - 0.5, nblob=(3, 4), sigma=(0.9, 1.1), rmin=2.5))
         nrot = draw(st.integers(0, 3))
         rots = planted.rotation_set(draw, kmax=nrot + 1, min_sep_deg=35.0, max_angle_deg=90.0)[1:] if nrot else []
+        if nrot and draw(st.booleans()):
+            # quarter turns about the box axes: the rotations for which a wrong rotation centre displaces the template by a whole voxel
+            h = math.pi / 2
+            quarter = [[h, 0.0, 0.0], [0.0, h, 0.0], [0.0, 0.0, h], [-h, 0.0, 0.0], [0.0, 0.0, 2 * h]]
+            rots = [list(r) for r in draw(st.lists(st.sampled_from(quarter), min_size=nrot, max_size=nrot, unique_by=tuple))]
+            quarter_turns = True
         depth = int(math.ceil(ts / 2))
         spacing = int(math.ceil(1.6 * ts))
         margin = ts // 2 + 3
@@ -258,7 +266,9 @@ def cases(draw, pickers=("LoG", "DoG", "ZNCC")):
         parts.append({"pos": [vol[0] / 2, vol[1] / 2, vol[2] / 2], "k": 0, "cls": "interior"})
     # on-grid class: the particle centre coincides with a voxel of the response (integer position; half-integer along even
     # template axes), so the pick must be exact, not just within a voxel
-    if draw(st.booleans()):
+    # (quarter-turn candidates: always on the grid - a candidate turned by 90 or 180 degrees matches two of the three or four
+    #  blobs of a neighbouring particle and reaches 0.84; only exactly sampled particles (score 0.99) stand clear of that)
+    if quarter_turns or draw(st.booleans()):
         for q in parts:
             h = [0.0, 0.0, 0.0] if tshape is None else [((t - 1) / 2) % 1 for t in tshape]
             q["pos"] = [float(round(v - h[a]) + h[a]) for a, v in enumerate(q["pos"])]
@@ -274,7 +284,7 @@ def cases(draw, pickers=("LoG", "DoG", "ZNCC")):
             p0["cls"] = "pair"
     return {"picker": picker, "scale": scale, "vol": vol, "chunks": chunks, "particles": parts, "sigma_px": sigma_px,
             "tshape": tshape, "blobs": blobs, "rots": rots, "min_dist_px": min_dist, "depth": depth, "psigma": psigma,
-            "tmpl_as": draw(st.sampled_from(["array", "array", "provider"])), "warm": draw(st.booleans()),
+            "tmpl_as": draw(st.sampled_from(["array", "array", "provider"])), "warm": draw(st.booleans()), "quarter_turns": quarter_turns,
             "baseline": draw(st.sampled_from([0.0, 0.0, 100.0, 5000.0])),
             "dtype": draw(st.sampled_from(["float32", "float32", "float64", "int16", "uint8"])),
             # (normalised template-matching scores of two identical noise-free particles tie exactly: keep some noise there)
@@ -355,10 +365,10 @@ def labels(d):
 def engines():
     return [
         Engine("blob-pickers", judge, strategy=cases(("LoG", "DoG")), nontrivial=nontrivial, labels=labels,
-               cases={"quick": 40, "thorough": 1500}, shards={"quick": 8, "thorough": 16}, shrink={"quick": False, "thorough": True}),
+               cases={"quick": 64, "thorough": 1500}, shards={"quick": 8, "thorough": 16}, shrink={"quick": False, "thorough": True}),
         Engine("many-rotations", judge_many_rotations, strategy=many_rotation_cases(), nontrivial=lambda d: any(k % 300 >= 256 for k in d["ks"][:2]),
                labels=lambda d: ["K:300"] + [f"k>=256:{k % 300 >= 256}" for k in d["ks"][:2]],
                cases={"quick": 4, "thorough": 48}, shards={"quick": 4, "thorough": 12}, shrink={"quick": False, "thorough": False}),
         Engine("template-matcher", judge, strategy=cases(("ZNCC",)), nontrivial=nontrivial, labels=labels,
-               cases={"quick": 24, "thorough": 800}, shards={"quick": 8, "thorough": 16}, shrink={"quick": False, "thorough": True}),
+               cases={"quick": 80, "thorough": 800}, shards={"quick": 16, "thorough": 16}, shrink={"quick": False, "thorough": True}),
     ]
